@@ -557,7 +557,8 @@ static void op_map(int argc, char ** argv)
     } else if (!strcmp(o, "find") && argc == 3) {
         cstl_map_iterator_t it;
         probe = (int)h_int(argv[2]);
-        cstl_map_find(&map, &probe, &it);
+        /* key 0 is looked up through the NULL key pointer (see KO_NULL) */
+        cstl_map_find(&map, probe == 0 ? NULL : &probe, &it);
         outf("it=");
         print_iter(&it, 0, it._ != NULL);
     } else if (!strcmp(o, "erase") && argc == 3) {
@@ -566,7 +567,7 @@ static void op_map(int argc, char ** argv)
         probe = (int)h_int(argv[2]);
         h_alloc_plan("");
         h_alloc_arm(1);
-        r = cstl_map_erase(&map, &probe, &it);
+        r = cstl_map_erase(&map, probe == 0 ? NULL : &probe, &it);
         h_alloc_arm(0);
         mlog_alloc();
         outf("r=%d it=", r);
